@@ -72,6 +72,7 @@ type c03exec struct {
 	viol    []string
 	viosig  []string
 	spont   bool // the history contains a spontaneous loss of a completed task
+	nevals  int  // number of concurrent evaluators
 	handoff int
 	resub   int
 	lastRet map[*c03task]int64
@@ -150,7 +151,15 @@ func (x *c03exec) Run(t *exec.Task) {
 	}
 	from := x.start
 	if r, ok := x.lastRet[ct]; ok {
-		from = r
+		// With one evaluator a hand-off after a return of the task follows a fresh look at its
+		// dependencies, made after that return. With two evaluators the hand-off can come from the
+		// one that decided long ago (when the dependency was OK), never ran the task itself and
+		// only now gets to act: the property speaks of dependencies that have completed, and
+		// the decision time is not observable at this boundary, so the window then starts at
+		// the beginning of the history.
+		if x.nevals <= 1 {
+			from = r
+		}
 		x.resub++
 	}
 	for _, d := range t.Deps {
@@ -285,6 +294,7 @@ func runC03case(t *vf.T, c c03case) {
 	if len(c.Roots2) > 0 {
 		rootSets = append(rootSets, c.Roots2)
 	}
+	x.nevals = len(rootSets)
 	results := make([]*evalRes, len(rootSets))
 	var wg sync.WaitGroup
 	ctx, cancel := context.WithCancel(context.Background())
